@@ -273,3 +273,9 @@ def check(run):
     r5_lookup(run, F)
     r6_codes(run, F)
     r7_visit(run, F)
+    if run.tier == "thorough":
+        FA = run.facts("A")
+        run.key_prefix = "cfgA:"
+        for fn in (r1_balance, r2_order, r3_passes, r4_pruning, r5_lookup, r6_codes, r7_visit):
+            fn(run, FA)
+        run.key_prefix = ""
